@@ -89,73 +89,81 @@ func (c *ScalarCase) path() string {
 // value materialises the Go value.
 func (c *ScalarCase) value() reflect.Value { return desc.Build(desc.Type(c.T), c.Val) }
 
-// run presents the value through the carrier and returns the error text.
-func (c *ScalarCase) run() (errText string, isNil bool, panicked interface{}) {
+// prepare builds the argument of the call (value, carrier object, rule map)
+// and returns a closure that performs nothing but the library call, so that
+// concurrent checks can build everything before the goroutines start.
+func (c *ScalarCase) prepare() func() error {
 	v := c.value()
 	rules := c.rules()
-	var err error
-	panicked = ev.Guard(func() {
-		switch c.Carrier {
-		case "var":
-			err = valid.Var(v.Interface(), c.Rules...)
-		case "tag":
-			st := desc.T{K: "struct", Fields: []desc.F{{Name: "K", T: c.T, Tags: map[string]string{"valid": rules}}}}
-			sv := reflect.New(desc.Type(st))
-			sv.Elem().Field(0).Set(v)
-			err = valid.Struct(sv.Interface())
-		case "rm":
-			st := desc.T{K: "struct", Fields: []desc.F{{Name: "K", T: c.T}}}
-			sv := reflect.New(desc.Type(st))
-			sv.Elem().Field(0).Set(v)
-			err = valid.StructForFn(sv.Interface(), valid.NewRule().Set("K", c.Rules...))
-		case "map", "mapiface", "listmap":
-			et := v.Type()
-			if c.Carrier == "mapiface" {
-				et = reflect.TypeOf((*interface{})(nil)).Elem()
-			}
-			m := reflect.MakeMap(reflect.MapOf(reflect.TypeOf(""), et))
-			if !c.Missing {
-				m.SetMapIndex(reflect.ValueOf(scalarKey), v)
-			}
-			for _, o := range c.Others {
-				if c.Carrier == "mapiface" {
-					m.SetMapIndex(reflect.ValueOf(o[0]), reflect.ValueOf(o[1]))
-				}
-			}
-			rm := valid.RM{scalarKey: rules}
-			if c.Carrier == "listmap" {
-				l := reflect.MakeSlice(reflect.SliceOf(m.Type()), 2, 2)
-				l.Index(0).Set(m)
-				l.Index(1).Set(m)
-				err = valid.Map(l.Interface(), rm)
-			} else {
-				err = valid.Map(m.Interface(), rm)
-			}
-		case "url", "urlenc":
-			var params []string
-			for _, o := range c.Others {
-				params = append(params, o[0]+"="+o[1])
-			}
-			if !c.Missing {
-				ours := scalarKey + "=" + v.String()
-				pos := c.Pos
-				if pos > len(params) {
-					pos = len(params)
-				}
-				params = append(params[:pos], append([]string{ours}, params[pos:]...)...)
-			}
-			u := "http://test.com/a/b"
-			if len(params) > 0 {
-				u += "?" + strings.Join(params, "&")
-			}
-			if c.Carrier == "urlenc" {
-				u = url.QueryEscape(u)
-			}
-			err = valid.Url(u, valid.RM{scalarKey: rules})
-		default:
-			panic("bad carrier " + c.Carrier)
+	switch c.Carrier {
+	case "var":
+		src := v.Interface()
+		rs := append([]string(nil), c.Rules...)
+		return func() error { return valid.Var(src, rs...) }
+	case "tag":
+		st := desc.T{K: "struct", Fields: []desc.F{{Name: "K", T: c.T, Tags: map[string]string{"valid": rules}}}}
+		sv := reflect.New(desc.Type(st))
+		sv.Elem().Field(0).Set(v)
+		src := sv.Interface()
+		return func() error { return valid.Struct(src) }
+	case "rm":
+		st := desc.T{K: "struct", Fields: []desc.F{{Name: "K", T: c.T}}}
+		sv := reflect.New(desc.Type(st))
+		sv.Elem().Field(0).Set(v)
+		src := sv.Interface()
+		rs := append([]string(nil), c.Rules...)
+		return func() error { return valid.StructForFn(src, valid.NewRule().Set("K", rs...)) }
+	case "map", "mapiface", "listmap":
+		et := v.Type()
+		if c.Carrier == "mapiface" {
+			et = reflect.TypeOf((*interface{})(nil)).Elem()
 		}
-	})
+		m := reflect.MakeMap(reflect.MapOf(reflect.TypeOf(""), et))
+		if !c.Missing {
+			m.SetMapIndex(reflect.ValueOf(scalarKey), v)
+		}
+		for _, o := range c.Others {
+			if c.Carrier == "mapiface" {
+				m.SetMapIndex(reflect.ValueOf(o[0]), reflect.ValueOf(o[1]))
+			}
+		}
+		var src interface{} = m.Interface()
+		if c.Carrier == "listmap" {
+			l := reflect.MakeSlice(reflect.SliceOf(m.Type()), 2, 2)
+			l.Index(0).Set(m)
+			l.Index(1).Set(m)
+			src = l.Interface()
+		}
+		return func() error { return valid.Map(src, valid.RM{scalarKey: rules}) }
+	case "url", "urlenc":
+		var params []string
+		for _, o := range c.Others {
+			params = append(params, o[0]+"="+o[1])
+		}
+		if !c.Missing {
+			ours := scalarKey + "=" + v.String()
+			pos := c.Pos
+			if pos > len(params) {
+				pos = len(params)
+			}
+			params = append(params[:pos], append([]string{ours}, params[pos:]...)...)
+		}
+		u := "http://test.com/a/b"
+		if len(params) > 0 {
+			u += "?" + strings.Join(params, "&")
+		}
+		if c.Carrier == "urlenc" {
+			u = url.QueryEscape(u)
+		}
+		return func() error { return valid.Url(u, valid.RM{scalarKey: rules}) }
+	}
+	panic("bad carrier " + c.Carrier)
+}
+
+// run presents the value through the carrier and returns the error text.
+func (c *ScalarCase) run() (errText string, isNil bool, panicked interface{}) {
+	var err error
+	panicked = ev.Guard(func() { err = c.prepare()() })
 	if err == nil {
 		return "", true, panicked
 	}
